@@ -489,3 +489,22 @@ func init() {
 		}()
 	}
 }
+
+func init() {
+	propMeta["C14"] = propInfo{Level: "model_checking",
+		Assumptions: []string{"routes and methods are discovered from the chi router of the real server (server.VerifRoutes + chi.Walk), so new routes are included",
+			"expiry classes use +-1h offsets so that the wall clock inside the JWT library cannot flip a verdict",
+			"requests are served by the handler in-process (httptest), not over a socket"},
+		Rule:        "exhaustive finite product: every walked (method, route) x 14 invalid credential classes x 3 transports x profiling on/off x 3 request histories (fresh, after a valid header request, after a valid cookie request), plus every other standard method and slash variant on each pattern; a tuple is a distinct (route, method, credential, transport, profiling, history) combination",
+		Explanation: "exhaustive enumeration of a finite input product against the real handler with a state-unchanged oracle on a live runner"}
+	propMeta["C17"] = propInfo{Level: "model_checking",
+		Assumptions: []string{"value grids per field kind are finite; fields are discovered by reflection and an unknown kind aborts the check", "map iteration order inside the definition package is owned by the checker (instrumented range-over-map) and enumerated for the validation cases"},
+		Rule:        "bounded exhaustive inputs: 1024 definitions of the validation grid rendered to YAML and loaded; file-set layouts; for every field of PipelineDef / TaskDef (by reflection) all ordered pairs of a per-kind value grid compared by Equals against reference equality; a case is non-trivial when the two configurations differ / the definition is distinct",
+		Explanation: "exhaustive enumeration of bounded input spaces of the loader, validator and Equals"}
+	propMeta["C10"] = propInfo{Level: "model_checking", Assumptions: append([]string{"the restart is performed on the real JSON store in a temp directory and both reports are read through the real server handlers"}, rmcAssumptions...),
+		Rule:        "explicit-state BFS over event histories; at every distinct state the runner is saved to a real JsonDataStore and a second runner is started from it; plus every JSON value of nesting depth <= 2 over 16 atoms as a job variable through the real schedule handler; states are distinct canonical runner states / distinct variable values",
+		Explanation: "explicit-state BFS with a restart oracle at every state, and an exhaustive codec sweep"}
+	propMeta["C12"] = propInfo{Level: "model_checking", Assumptions: append([]string{"log directories are real (FileOutputStore in a temp directory), written by the mock runner through the store"}, rmcAssumptions...),
+		Rule:        "explicit-state BFS over histories of schedule / task outcome / cancel / clock advance / reload (pipeline removed) / save events for retention_count in {0,1,2} x retention_period in {0,1h}, optionally starting from jobs loaded from an earlier run; after every save the reference retention rules and the agreement of API, store and log directories are checked",
+		Explanation: "explicit-state BFS over event histories with a retention oracle at every save"}
+}
